@@ -138,11 +138,11 @@ func toMatcherMap(lhSelector *parser.VectorSelector) map[string]*labels.Matcher 
 	return lhMatchers
 }
 
+// duplicateExists reports whether the other side already has a matcher on the
+// same label. Whether it is the same matcher or a different one, the union is
+// keyed by label name and cannot hold both, so the caller leaves the expression
+// alone: overwriting one side's matcher with the other's would widen its select.
 func duplicateExists(matchers map[string]*labels.Matcher, matcher *labels.Matcher) bool {
-	existing, ok := matchers[matcher.Name]
-	if !ok {
-		return false
-	}
-
-	return existing.String() == matcher.String()
+	_, ok := matchers[matcher.Name]
+	return ok
 }
